@@ -84,6 +84,11 @@ def rand_label(rng, tier, used):
         else:
             n = rng.choice([200, 254, 255])
         pool = VALID if rng.random() < 0.7 else EDGE + list("xyzXYZ019eE")
+        if r >= 0.85 and rng.random() < 0.3:
+            # labels that are short in CHARACTERS but long in BYTES (the two 3-byte quotes are legal label characters): up to
+            # 255 characters is legal, i.e. up to 765 bytes (round-6 miss C12 r6m2: a byte cap in the reader's name copy)
+            n = rng.choice([86, 90, 128, 255])
+            pool = ['‘', '’', '‘', '’', 'x']
         first_pool = [c for c in pool if c not in lp.LABEL_INVALID_FIRST_CHARS]
         s = rng.choice(first_pool) + ''.join(rng.choice(pool) for _ in range(n - 1))
         if rng.random() < 0.08:
